@@ -134,3 +134,117 @@ for _n in (3, 4):
           assumes=["tf.random.uniform returns independent values in [0, 1] (fresh atoms)",
                    "A-MATH (Raubold-Lynch): accepting proposal k with probability prod q / w_max makes the accepted masses phase-space distributed; the contract is that the "
                    "decision is exactly this per-event rule"])(_mk_accept(_n))
+
+
+# ---------------------------------------------------------------------------------------------
+# the acceptance weight never exceeds one (all masses, all intermediate masses inside the open channels)
+# ---------------------------------------------------------------------------------------------
+@group(["C10"], "phasespace.get_p/monotone", ["phasespace:get_p"], cost=6, no_native=True,
+       assumes=["tf.where / tf.sqrt op models (A-OPS)"])
+def get_p_monotone(ctx):
+    """lemmas on the REAL get_p, all inputs: above threshold the break-up momentum grows with the parent mass and falls with a daughter mass; it is >= 0 everywhere"""
+    ps = ctx.mod("phasespace")
+    M1 = ctx.real("M1", (), lambda r: r.uniform(1.0, 2.0))
+    dM = ctx.real("dM", (), lambda r: r.uniform(0.0, 1.0))
+    a = ctx.real("a", (), lambda r: r.uniform(0.0, 0.5))
+    da = ctx.real("da", (), lambda r: r.uniform(0.0, 0.2))
+    b = ctx.real("b", (), lambda r: r.uniform(0.0, 0.5))
+    for t in (dM, a, da, b):
+        ctx.require(t >= 0.0)
+    ctx.require(M1 >= a + da + b, "parent at or above threshold for the heavier daughter")
+    ctx.require(M1 > 0.0)
+    ctx.holds("nonneg", ps.get_p(M1, a, b) >= 0.0, clause="get_p(M, a, b) >= 0")
+    eps = ctx.real("eps", (), lambda r: r.uniform(0.01, 0.5))
+    ctx.require(eps > 0.0)
+    ctx.holds("positive_above_threshold", ps.get_p(a + b + eps, a, b) > 0.0, clause="M > a + b  =>  get_p(M, a, b) > 0")
+    ctx.holds("increasing_in_M", ps.get_p(M1 + dM, a, b) >= ps.get_p(M1, a, b), clause="M2 >= M1 >= a + b  =>  get_p(M2, a, b) >= get_p(M1, a, b)")
+    ctx.holds("decreasing_in_a", ps.get_p(M1, a, b) >= ps.get_p(M1, a + da, b), clause="a <= a' and M >= a' + b  =>  get_p(M, a, b) >= get_p(M, a', b)")
+
+
+def _mk_weight_le_one(n):
+    def g(ctx):
+        tf, shim = ctx.tf, ctx.shim
+        ps = ctx.mod("phasespace")
+        S = lambda t: shim.STensor(shim._arr(t))  # noqa: E731
+        E = lambda x: shim.elems(x)[0]  # noqa: E731
+        # samplers on the dyadic grid k/64: sums and differences of masses are then exact in floating point, so the numeric pre-filter cannot
+        # mistake a rounding error of 1 ulp for a violation of  M <= max M  (an equality for the last step)
+        m0 = ctx.real("m0", (), lambda r: 5.0 + r.randrange(0, 64) / 64.0)
+        ms = [ctx.real("m%d" % i, (), lambda r: r.randrange(7, 26) / 64.0) for i in range(1, n + 1)]
+        for m in ms:
+            ctx.require(m >= 0.001)
+        tot = ms[0]
+        for m in ms[1:]:
+            tot = tot + m
+        ctx.require(m0 - tot >= 0.001, "positive Q value")
+        inter = [ctx.real("M%d" % k, (), (lambda k: (lambda r: 1.0 + k + r.randrange(0, 20) / 64.0))(k)) for k in range(n - 2)]
+        calls = []
+        real_get_p = ps.get_p
+
+        def summary(M, ma, mb):
+            # callee summary: get_p is an opaque function constrained only by the lemmas proved on the real function in phasespace.get_p/monotone
+            args = [E(tf.convert_to_tensor(x)) for x in (M, ma, mb)]
+            r = S(tm.fn("getp", *args))
+            calls.append((tuple(S(a) for a in args), r))
+            return r
+
+        ps.get_p = summary
+        try:
+            gen = ps.PhaseSpaceGenerator.__new__(ps.PhaseSpaceGenerator)
+            gen.m_mass = []
+            gen.mass_generator = []
+            gen.set_decay(m0, list(ms))
+            n_bound = len(calls)
+            w = gen.get_weight(list(inter), importances=False)
+        finally:
+            ps.get_p = real_get_p
+        bound_calls, weight_calls = calls[:n_bound], calls[n_bound:]
+        ctx.holds("factor_count", tf.constant(len(bound_calls) == n - 1 and len(weight_calls) == n - 1), clause="n - 1 break-up momenta in the bound and in the weight")
+        chain = [ms[-1]] + list(inter) + [m0]
+        for i in range(n - 1):
+            ctx.require(chain[i + 1] - chain[i] - ms[-i - 2] >= 0.0, "channel %d open (this is what generate_mass guarantees: each proposed mass lies inside its range)" % i)
+
+        def P(M, a, b):
+            return S(tm.fn("getp", E(M), E(a), E(b)))
+
+        prod_x, prod_b = None, None
+        for i in range(n - 1):
+            (Mb, ab, bb), B = bound_calls[i]
+            (Mx, ax, bx), X = weight_calls[i]
+            ctx.eq("factor[%d]/same_daughter" % i, bx, bb, clause="factor i of the weight and factor i of the bound refer to the same emitted daughter mass")
+            ctx.holds("factor[%d]/parent_below_max" % i, Mx <= Mb, clause="the parent mass of step i never exceeds the maximal mass used in w_max (given open channels)")
+            ctx.holds("factor[%d]/recoil_above_min" % i, (ax >= ab) & (ab >= 0.0), clause="the recoil mass of step i is at least the (non-negative) minimal mass used in w_max")
+            ctx.holds("factor[%d]/channel_open" % i, (Mx >= ax + bx) & (Mb > ab + bb) & (bx >= 0.0), clause="premises of the get_p lemmas: the step is above threshold, w_max's step strictly so")
+            # instances of the lemmas proved on the real get_p (phasespace.get_p/monotone), for exactly these argument triples
+            mid = P(Mb, ax, bx)
+            ctx.lemma(tf.logical_or(tf.logical_not((Mb >= Mx) & (Mx >= ax + bx) & (ax >= 0.0) & (bx >= 0.0)), mid >= X))          # increasing_in_M
+            ctx.lemma(tf.logical_or(tf.logical_not((ab >= 0.0) & (ab <= ax) & (Mb >= ax + bx) & (bx >= 0.0)), P(Mb, ab, bx) >= mid))  # decreasing_in_a
+            ctx.lemma(X >= 0.0)                                                                                                    # nonneg
+            ctx.lemma(tf.logical_or(tf.logical_not((Mb > ab + bb) & (ab >= 0.0) & (bb >= 0.0)), B > 0.0))                           # positive_above_threshold
+            ctx.holds("factor[%d]/bound_positive" % i, B > 0.0, clause="every factor of w_max is positive for a positive Q value")
+            ctx.holds("factor[%d]/at_most_bound" % i, (X >= 0.0) & (X <= B), clause="0 <= q(M_{i+1}, M_i, m) <= q(max M_{i+1}, min M_i, m): each factor of the weight is bounded by its factor of w_max")
+            prod_x = X if prod_x is None else prod_x * X
+            prod_b = B if prod_b is None else prod_b * B
+        ctx.eq("weight_is_ratio_of_products", w, prod_x / prod_b, clause="get_weight(ms, importances=False) == prod_i q_i / prod_i q_i^max  (q = get_p)", skip_def=True)
+        # composition lemma on fresh reals: 0 <= x_i <= y_i, y_i > 0  =>  prod x / prod y <= 1
+        xs = [ctx.real("x%d" % i, (), lambda r: r.uniform(0, 1)) for i in range(n - 1)]
+        ys = [ctx.real("y%d" % i, (), lambda r: r.uniform(1, 2)) for i in range(n - 1)]
+        px, py = xs[0], ys[0]
+        hyp = (xs[0] >= 0.0) & (xs[0] <= ys[0]) & (ys[0] > 0.0)
+        for i in range(1, n - 1):
+            px, py = px * xs[i], py * ys[i]
+            hyp = hyp & (xs[i] >= 0.0) & (xs[i] <= ys[i]) & (ys[i] > 0.0)
+        ctx.holds("composition_lemma", tf.logical_or(tf.logical_not(hyp), (px <= py) & (px >= 0.0)), clause="0 <= x_i <= y_i and y_i > 0 for all i  =>  0 <= prod x_i <= prod y_i  (hence weight <= 1)")
+
+    return g
+
+
+for _n in (3, 4, 5):
+    group(["C10"], "phasespace.get_weight/at_most_one/n=%d" % _n,
+          ["phasespace:PhaseSpaceGenerator.get_weight", "phasespace:PhaseSpaceGenerator.set_decay", "phasespace:get_p"],
+          cost=6 * _n, no_native=True, tiers=("quick", "thorough") if _n <= 4 else ("thorough",),
+          bound="n = %d daughters (the loops over decay steps are unrolled); all masses and all intermediate masses with open channels" % _n,
+          assumes=["get_p is summarised by the four lemmas proved on the real function in phasespace.get_p/monotone (nonneg, positive_above_threshold, increasing_in_M, "
+                   "decreasing_in_a), instantiated for the argument triples of the real calls made by set_decay and get_weight",
+                   "the intermediate masses handed to get_weight have open channels (M_{i+1} >= M_i + m): the contract of generate_mass / get_mass_range (bounded group iface.C10/mass_range)",
+                   "importance factors of custom mass generators are not part of this clause (importances=False)"])(_mk_weight_le_one(_n))
